@@ -102,22 +102,6 @@ func matchesPrediction(cls string, r resultT, m modelAns) bool {
 	if modelExpresses[cls] && m.line != "" && m.y == "ok" {
 		return false // the model of the unchanged code does not predict a failure on this input
 	}
-	switch cls {
-	case "variadic-empty":
-		// reflect.Call builds an empty, non-nil slice for a variadic parameter without arguments
-		// (the only difference allowed: an observation that is exactly a nil slice on one side and an empty one on the other)
-		norm := func(o outcome) string {
-			cp := o
-			cp.Obs = append([]obsT{}, o.Obs...)
-			for i := range cp.Obs {
-				if cp.Obs[i].V == "nilslice" {
-					cp.Obs[i].V = "[]"
-				}
-			}
-			return cp.key()
-		}
-		return norm(r.ref) == norm(r.impl)
-	}
 	return true
 }
 
@@ -155,11 +139,30 @@ func countCase(run *common.Run, r resultT, cls string) {
 	run.Hit(fmt.Sprintf("params:%d", len(c.Sig.In)))
 	run.Hit(fmt.Sprintf("results:%d", len(c.Sig.Out)))
 	if c.Sig.Variadic {
-		if c.Spread {
-			run.Hit("variadic:spread")
-		} else {
-			run.Hit("variadic:elems")
+		how := "elems"
+		switch {
+		case c.Spread:
+			how = "spread"
+		case len(c.Args) == len(c.Sig.In)-1 && c.ArgSrc == "":
+			how = "empty"
 		}
+		run.Hit("variadic:" + how)
+		if how != "elems" && c.Dir != "h2s" {
+			callee := c.Callee
+			if c.Dir == "meth" {
+				callee = "method:" + c.Recv
+			}
+			if callee == "" {
+				callee = "direct"
+			}
+			run.Hit("variadic:" + how + ":" + c.Ctx + ":" + callee)
+		}
+		if how == "empty" && c.Dir == "h2s" {
+			run.Hit("variadic:empty:host-calls-script:" + c.How)
+		}
+	}
+	if c.Callee != "" {
+		run.Hit("callee:" + c.Callee)
 	}
 	for _, f := range c.Forms {
 		run.Hit("form:" + f)
@@ -235,9 +238,7 @@ func generateAll(run *common.Run) []*Case {
 	}
 	names := []string{}
 	for _, k := range classes {
-		if k.name != "defer-func-arg" { // dead-locks the interpreter (C06, F06-2): never run
-			names = append(names, k.name)
-		}
+		names = append(names, k.name)
 	}
 	sort.Strings(names)
 	for _, cls := range names {
